@@ -182,11 +182,12 @@ theorem src_extractC13 (h : HTMLTextDocument_extract_available = true) (h' : HTM
 
 /-- `HTMLTextDocument.__init__` as the source has it, for every text, `deps=` None or a list (of anything) and any
     `deps_replace_pattern=`: ValueError when a list is given without a placeholder; otherwise the instance holds the
-    remaining text, the given list followed by the rebuilt dependencies, and the placeholder -/
+    remaining text, the given list followed by the rebuilt dependencies, and the placeholder (compared attribute by
+    attribute, `normDocC13`: the order of the assignments is not part of the statement) -/
 theorem src_textdoc_initC13 (h : HTMLTextDocument_init_available = true) (h' : HTMLTextDocument_extract_available = true)
     (h'' : HTMLTextDocument_static_extract_available = true) (G : Globals) (cls : String) (html : Str)
     (given : Option (List PVal)) (ph : PVal) :
-    HTMLTextDocument_init G (.obj cls []) (.str html) (optListC13 given) ph
+    normDocC13 <$> HTMLTextDocument_init G (.obj cls []) (.str html) (optListC13 given) ph
       = if isNone ph && given.isSome then .error .valueError else
         (rebuildAllC13 (rebuildC13 G) (tdDedupKeepFirst (scan html.length html).2) >>= fun ds =>
           .ok (textDocObjC13 cls (scan html.length html).1 (given.getD [] ++ ds) ph)) := by
@@ -227,7 +228,7 @@ theorem src_textdoc_init_modelC13 (h : HTMLTextDocument_init_available = true) (
           (textDocInit html gs ph) := by
   have hA := rebuildAll_recoverAllC13 (rebuildC13 G) (fun d => embSDepC13 (rk d.info.version) d) _ hrec
   have hn : isNone (optStrC13 ph) = ph.isNone := by cases ph <;> rfl
-  rw [src_textdoc_initC13 h h' h'' G cls html, textDocInit, hn, extract]
+  rw [projDoc_mapC13, src_textdoc_initC13 h h' h'' G cls html, textDocInit, hn, extract]
   cases hc : (ph.isNone && gs.isSome)
   · have hc' : (ph.isNone && (Option.map (fun l => List.map (fun d => embSDepC13 (rk d.info.version) d) l) gs).isSome) = false := by
       simpa using hc
@@ -246,7 +247,7 @@ theorem src_textdoc_init_modelC13 (h : HTMLTextDocument_init_available = true) (
         rw [hB] at hA
         simp only [map_ok, Except.ok.injEq] at hA
         cases gs <;>
-          simp [embRes, textDocObjC13, projDocC13, hA, projDep_embSDepC13, Function.comp_def]
+          simp [embRes, textDocObjC13, projDocCoreC13, hA, projDep_embSDepC13, Function.comp_def]
   · have hc' : (ph.isNone && (Option.map (fun l => List.map (fun d => embSDepC13 (rk d.info.version) d) l) gs).isSome) = true := by
       simpa using hc
     simp only [hc', if_true, map_error, embRes, embErr]
